@@ -30,14 +30,36 @@ def plan(tier, seed):
             for S in ordered_subsets(n):
                 scs.append(dict(n=n, v=vi, S=list(S)))
             scs.append(dict(n=n, v=vi, pop=True))
+    for big in (60, 400):
+        for di in range(len(big_deletions(big))):
+            scs.append(dict(big=big, d=di))
     return dict(scenarios=scs, exhaustive=True, chunk=40,
                 menus=dict(n_atoms=list(range(1, N + 1)), variants=['tables=%s extra=%s dup=%s kinds=%s' % v for v in variants()],
                            containers=['list', 'tuple', 'ndarray'], orderings='all permutations for |S|<=3, else sorted/reversed/rotated',
                            pop=['pop()', 'pop(i) for every i in -n..n-1']),
-                bounds=dict(max_atoms=N),
+                bounds=dict(max_atoms=N, large_structures=[60, 400]),
                 rule='one scenario per (structure, index subset); every listing order x container inside; non-trivial = the deletion removes at least one term and keeps at least one atom',
                 assumptions=['structures are chains of <= %d atoms with bonds, angles, dihedrals, one improper' % N,
                              'reference model mc/ref/structure.py'])
+
+
+def big_structure(n):
+    """many atoms, few terms: a bonded chain with all term kinds on atoms 0..5, plus isolated terms far up the index range"""
+    pos = [(1.0 + 0.9 * (i % 20), 1.0 + 0.9 * ((i // 20) % 20), 1.0 + 0.9 * (i // 400)) for i in range(n)]
+    bonds = [(i, i + 1) for i in range(5)] + [(2, 0), (n - 3, n - 2), (n - 2, n - 1), (n // 2, 1)]
+    angles = [(0, 1, 2), (1, 2, 3), (3, 4, 5), (n - 3, n - 2, n - 1)]
+    dih = [(0, 1, 2, 3), (2, 3, 4, 5), (n - 1, n // 2, 1, 0)]
+    imp = [(1, 0, 2, 3)]
+    return Atoms(atom_types=[i % 3 for i in range(n)], atom_type_elements=['C', 'N', 'O'], atom_type_labels=['Ca', 'Na', 'Oa'], atom_type_masses=[12.0, 14.0, 16.0], positions=pos,
+                 charges=[0.001 * i for i in range(n)], groups=[i % 5 for i in range(n)], cell=30 * np.identity(3),
+                 bonds=bonds, bond_types=[i % 2 for i in range(len(bonds))], angles=angles, angle_types=[0, 1, 0, 1], dihedrals=dih, dihedral_types=[0, 0, 1], impropers=imp, improper_types=[0],
+                 bond_type_coeffs=['b0 1', 'b1 2'], angle_type_coeffs=['a0 1', 'a1 2'], dihedral_type_coeffs=['d0 1', 'd1 2'], improper_type_coeffs=['i0 1'])
+
+
+def big_deletions(n):
+    out = [list(range(n // 10, n - 10, max(1, n // 20))), list(range(0, n, 2)), list(range(n - 20, n)), [0, 3] + list(range(7, n - 5, max(1, n // 17))), list(range(6, n - 3)),
+           [n - 1], list(range(1, n, 3))[::-1], list(range(n // 3, n // 3 + 25)) + [n - 2]]
+    return [sorted(set(x)) for x in out]
 
 
 def orders(S):
@@ -62,6 +84,21 @@ def check_after(a, ref, sc, what, out):
 
 
 def run(sc, ctx):
+    if 'big' in sc:
+        out = dict(evals=0, compared=0, violations=[], outcomes={}, hashes=set(), nontrivial=0)
+        base = big_structure(sc['big']); S = big_deletions(sc['big'])[sc['d']]
+        ref0 = RefStructure.of(base)
+        for order in (S, S[::-1]):
+            for cname, conv in CONV.items():
+                a = base.copy(); ref = ref0.copy()
+                _, err = call(a.__delitem__, conv(order)); ref.delete(S)
+                out['evals'] += 1; out['compared'] += 1; out['hashes'].add(h64(('big', sc['big'], sc['d'], order[0], cname)))
+                what = 'del atoms[%s of %d scattered indices] on %d atoms' % (cname, len(S), sc['big'])
+                if err:
+                    out['violations'].append(viol('delete-exact', 'del-exc:' + exc_sig(err), '%s raised %r' % (what, err[0]), sc, tb=err[1])); continue
+                check_after(a, ref, sc, what, out)
+        out['outcomes']['large structure'] = 1; out['nontrivial'] = 1
+        return out
     tables, xf, dup, kinds = variants()[sc['v']]
     base = mk(sc['n'], tables=tables, xf=xf, dup=dup, kinds=kinds)
     out = dict(evals=0, compared=0, violations=[], outcomes={}, hashes=set(), nontrivial=0)
